@@ -489,7 +489,100 @@ def op_churn(st, recipe, seed, n=25, with_keys=True):
                                  "graphs of two rounds that wrap different "
                                  f"data have one key (salt {salt})"})
                 sample = {"salt": salt, "key": k1, "content": c1}
+            # ... and every wrapped-data leaf on its own (in the whole graph
+            # the change of one leaf can hide behind the change of another)
+            from pytato.array import DataWrapper
+            for dw in [v for v in walker.pytato_nodes(g1)
+                       if isinstance(v, DataWrapper)][:8]:
+                try:
+                    kd = kb(dw)
+                    cd = walker.canon_key(dw, "content", scalar_types=True)
+                except Exception:  # noqa: BLE001
+                    continue
+                cnt["churn_leaf_keys"] = cnt.get("churn_leaf_keys", 0) + 1
+                if key_of_content.setdefault(cd, kd) != kd:
+                    viol.append({"class": "same-structure-but-key-differs",
+                                 "handles": [], "detail":
+                                 "wrapped-data leaf rebuilt in a later round"})
+                if content_of_key.setdefault(kd, cd) != cd:
+                    viol.append({"class": "key-collision:transient-rounds",
+                                 "handles": [], "detail":
+                                 "wrapped-data leaves of two rounds with "
+                                 f"different contents share a key (salt {salt})"})
         del g1, g2, m, pairs
+    # leaf alternation: the wrapped data of the recipe, one leaf at a time, in a
+    # tight loop -- new contents every round in an array of the same shape and
+    # dtype, allocated right after its predecessor was freed (so, at its
+    # address): a digest remembered by address now belongs to other data
+    if with_keys:
+        import pytato as pt
+        leaves = [stp for stp in recipe["steps"] if stp["op"] in ("dw", "dwgen")]
+        leaves.sort(key=lambda stp: -int(np.prod(stp["p"]["shape"]) or 1))
+        for stp in leaves[:3]:
+            seen_k: dict = {}
+            for t in range(1, 9):
+                try:
+                    if stp["op"] == "dwgen":
+                        arr = srecipe.bulk_data(stp["p"], t)
+                    else:
+                        arr = srecipe._salted(np.array(
+                            stp["p"]["data"], dtype=stp["p"]["dtype"]).reshape(
+                                tuple(stp["p"]["shape"])), t)
+                    dw = pt.make_data_wrapper(srecipe.layout_array(
+                        arr, stp["p"].get("layout", "C")))
+                    kd = kb(dw)
+                    cd = walker.canon_key(dw, "content", scalar_types=True)
+                except Exception:  # noqa: BLE001
+                    break
+                cnt["leaf_alternations"] = cnt.get("leaf_alternations", 0) + 1
+                if seen_k.setdefault(kd, cd) != cd:
+                    viol.append({"class": "key-collision:transient-leaf",
+                                 "handles": [], "detail":
+                                 f"wrapped data of shape {stp['p']['shape']} "
+                                 f"{stp['p']['dtype']}: two contents, one key "
+                                 f"(round {t})"})
+                    break
+                del arr, dw
+    # same-shape alternation: fresh graphs of the SAME shape (same node kinds,
+    # same object count, hence -- with a deterministic allocator -- the same
+    # addresses round after round) that are alternately equal and different.
+    # Whatever an earlier round left behind keyed by address now speaks about
+    # other objects.
+    try:
+        a0 = srecipe.build(recipe, None, 0, 0)[1]
+        b0 = srecipe.build(recipe, None, 0, 0)[1]
+        c0 = srecipe.build(recipe, None, 0, 1)[1]
+        fit = bool(a0 == b0) and \
+            walker.canon_key(a0, "identity") != walker.canon_key(c0, "identity")
+        del a0, b0, c0
+    except Exception:  # noqa: BLE001
+        fit = False
+    if fit:
+        for t in range(8):
+            var = t % 2
+            try:
+                a = srecipe.build(recipe, None, 0, 0)[1]
+                b = srecipe.build(recipe, None, 0, var)[1]
+                e = bool(a == b)
+                ka, kb_ = (kb(a), kb(b)) if with_keys else (None, None)
+            except Exception:  # noqa: BLE001
+                break
+            cnt["same_shape_alternations"] = \
+                cnt.get("same_shape_alternations", 0) + 1
+            if e != (var == 0):
+                viol.append({
+                    "class": ("equal-despite-difference" if e else
+                              "same-structure-but-unequal")
+                    + ":transient-same-shape", "handles": [],
+                    "detail": f"alternation round {t}: fresh graphs at "
+                              "recycled addresses"})
+            if with_keys and (ka == kb_) != (var == 0):
+                viol.append({
+                    "class": ("key-collision" if ka == kb_ else
+                              "same-structure-but-key-differs")
+                    + ":transient-same-shape", "handles": [],
+                    "detail": f"alternation round {t}"})
+            del a, b
     return {"violations": viol[:6], "counters": cnt, "sample": sample}
 
 
